@@ -299,6 +299,22 @@ def _parse_expression(tokens: pp.ParseResults) -> PolyhedralSyntaxExpression:
     raise ValueError(f"Expected an Expression, got: {type(e)}")
 
 
+def _parse_arithmetic_chain(tokens: pp.ParseResults) -> float:
+    # infixNotation passes a left-associative chain as one flat group: [a, op, b, op, c, ...]
+    group = tokens[0]
+    value = group[0]
+    for op, operand in zip(group[1::2], group[2::2]):
+        if op == "*":
+            value = value * operand
+        elif op == "/":
+            value = value / operand
+        elif op == "+":
+            value = value + operand
+        else:
+            value = value - operand
+    return value
+
+
 # Grammar rules
 
 # Produces a float
@@ -318,8 +334,8 @@ plus, minus, mult, div = map(pp.Literal, "+-*/")
 arithmetic_expr = pp.infixNotation(
     floating_point_number,
     [
-        (mult | div, 2, pp.opAssoc.LEFT, lambda s, l, t: t[0][0] * t[0][2] if t[0][1] == "*" else t[0][0] / t[0][2]),
-        (plus | minus, 2, pp.opAssoc.LEFT, lambda s, l, t: t[0][0] + t[0][2] if t[0][1] == "+" else t[0][0] - t[0][2]),
+        (mult | div, 2, pp.opAssoc.LEFT, _parse_arithmetic_chain),
+        (plus | minus, 2, pp.opAssoc.LEFT, _parse_arithmetic_chain),
     ],
 )
 
